@@ -12,8 +12,8 @@ from vlib import *
 from pegrun import *
 import gencrate
 
-SLICES_QUICK = [("core", 2, 3, 3, 25), ("ws", 4, 2, 3, 30), ("wsref", 2, 3, 3, 30), ("builtin", 2, 3, 3, 15), ("factor", 2, 1, 4, 20), ("counted", 2, 3, 4, 10)]
-SLICES_THOROUGH = [("core", 8, 4, 4, 250), ("ws", 8, 3, 3, 250), ("wsref", 4, 3, 3, 250), ("builtin", 8, 4, 3, 120), ("factor", 4, 1, 5, 120), ("counted", 4, 4, 4, 100),
+SLICES_QUICK = [("core", 2, 3, 3, 25), ("ws", 4, 2, 3, 30), ("wsmod", 2, 1, 4, 160), ("wsref", 2, 3, 3, 150), ("builtin", 2, 3, 3, 15), ("factor", 2, 1, 4, 20), ("counted", 2, 3, 4, 10)]
+SLICES_THOROUGH = [("core", 8, 4, 4, 250), ("ws", 8, 3, 3, 250), ("wsmod", 2, 1, 4, 400), ("wsref", 4, 3, 3, 600), ("builtin", 8, 4, 3, 120), ("factor", 4, 1, 5, 120), ("counted", 4, 4, 4, 100),
                    ("stack", 8, 4, 4, 100), ("restore", 8, 1, 5, 60)]
 
 
